@@ -707,7 +707,9 @@ def identity_compare(system, option, ts, seed, dt, diffuse, policy="on_t_sample"
         bad = [i for i, (x, y) in enumerate(zip(a, b)) if x != y]
     else:
         bad = [i for i in range(2 * n) if a[i] != b[i]]                      # first sample
-        bad += [i for i, y in enumerate(b) if y != int(y) or y < 0]          # molecule counts
+        # molecule counts are whole numbers; Gillespie never goes below zero, tau-leap may (a leap can draw more departures
+        # than a cell holds: the engine keeps the negative count, which is what conserves the total exactly)
+        bad += [i for i, y in enumerate(b) if y != int(y) or (y < 0 and option == "gillespie")]
         for k in range(len(a) // (2 * n)):                                   # A + B is conserved by A <-> B and by diffusion
             ta, tb = sum(a[k * 2 * n:(k + 1) * 2 * n]), sum(b[k * 2 * n:(k + 1) * 2 * n])
             if ta != tb:
